@@ -8,6 +8,7 @@ from ..cfg import CFG, Node, handler_names, iter_own
 from ..dataflow import PARAM, ReachingDefs
 from ..loader import AnalysisError, FuncInfo, dotted, walk_own
 from .common import Anchors, call_name, enum_member, is_const, names_in, self_attr
+from .discharge import controlling_tests
 from .tables import table_mutations
 
 REGISTRATIONS = {"callback", "push", "push_async_callback", "push_async_exit", "enter_context", "enter_async_context"}
@@ -207,18 +208,41 @@ def run(ctx) -> None:
         rep.hold("C01.R3", runner, runner.node, "no spawn primitive in the teardown loop")
 
     # ------------------------------------------------------------------ R4 exception argument
-    with_arg = [(n, c) for n, c in cb_calls if len(c.args) == 1 and not c.keywords]
-    no_arg = [(n, c) for n, c in cb_calls if not c.args and not c.keywords]
+    # argument sites: (cfg node at which the argument tuple is decided, report node, exception expr or None)
+    from ..facts import Facts
+
+    facts = Facts(a, runner, rd)
+    sites = []
+    for n, c in cb_calls:
+        if c.keywords:
+            rep.unrecognised("C01.R4", runner, c, "callback invoked with keyword arguments")
+        elif len(c.args) == 1 and isinstance(c.args[0], ast.Starred) and isinstance(c.args[0].value, ast.Name):
+            av = c.args[0].value.id
+            for d in rd.at(n.id, av):
+                info = rd.def_info(d, av)
+                v = info[1] if info else None
+                if isinstance(v, ast.Tuple) and len(v.elts) <= 1:
+                    sites.append((cfg.nodes[d], c, v.elts[0] if v.elts else None))
+                else:
+                    rep.unrecognised("C01.R4", runner, c, f"cannot tell what `*{av}` passes to the callback")
+        elif len(c.args) == 1 and not isinstance(c.args[0], ast.Starred):
+            sites.append((n, c, c.args[0]))
+        elif not c.args:
+            sites.append((n, c, None))
+        else:
+            rep.unrecognised("C01.R4", runner, c, "callback invoked with an unexpected argument list")
+    with_arg = [(n, c, e) for n, c, e in sites if e is not None]
+    no_arg = [(n, c, e) for n, c, e in sites if e is None]
     if not with_arg or not no_arg:
         rep.violate("C01.R4", runner, cb_calls[0][1], "callbacks are not invoked in the two documented ways (with the exception when pass_exception is set, without arguments otherwise)")
     flag = popped_vars.get("flag")
-    for n, c in with_arg:
-        arg = c.args[0]
+    within = [head.id] if head is not None else None
+    for n, c, e in no_arg:
+        if flag:
+            rep.check("C01.R4", facts.implied(n.id, ast.Name(id=flag, ctx=ast.Load()), False, within=within), runner, c, "no argument is passed iff the callback was registered without pass_exception", "a callback registered with pass_exception can be called without the exception")
+    for n, c, arg in with_arg:
         # branch condition = the flag popped together with the callback
-        from .discharge import controlling_tests
-
-        ct = [(t, lab) for t, lab in controlling_tests(cfg, n) if isinstance(t.ast, ast.Name) and t.ast.id == flag]
-        rep.check("C01.R4", any(lab == "t" for _, lab in ct), runner, c, "the exception is passed iff the flag registered with this callback is set", "the with-exception call is not selected by the callback's own pass_exception flag")
+        rep.check("C01.R4", bool(flag) and facts.implied(n.id, ast.Name(id=flag, ctx=ast.Load()), True, within=within), runner, c, "the exception is passed iff the flag registered with this callback is set", "the with-exception call is not selected by the callback's own pass_exception flag")
         if not isinstance(arg, ast.Name):
             cl = rd.closure_at(n.id, arg)
         else:
